@@ -491,10 +491,6 @@ theorem C07_prefix_messages (rx : Rx) (p q : Bytes) :
     · exact List.prefix_refl _
     · exact List.prefix_append _ _
 
-def encodeAll : List Msg → Bytes
-  | [] => []
-  | m :: ms => encode m ++ encodeAll ms
-
 private theorem drain_encodeAll (ms : List Msg) (hall : ∀ m ∈ ms, m.WF ∧ m.isContact = false) :
     drain { inConn := true, buf := encodeAll ms, dead := false } =
       ({ inConn := true, buf := [], dead := false }, ms) := by
